@@ -65,7 +65,12 @@ def rarg(rnd, spec, name, wtype, big=False):
             return None
         if k < 0.3:
             return {}
-        return gv.table(rnd, 0, rnd.choice([0, 1, 2, 4]))
+        if k < 0.34:
+            return gv.with_shared_parts(rnd)
+        t = gv.table(rnd, 0, rnd.choice([0, 1, 2, 4]))
+        if k < 0.44:
+            return gv.subclassify(t, rnd) or t
+        return t
     if wtype == 'timestamp':
         return gv.rdatetime(rnd)
     raise ValueError(wtype)
@@ -133,7 +138,12 @@ def rprop(rnd, name, wtype):
         k = rnd.random()
         if k < 0.15:
             return {}
-        return gv.table(rnd, 0, rnd.choice([0, 1, 2, 3]))
+        if k < 0.19:
+            return gv.with_shared_parts(rnd)
+        t = gv.table(rnd, 0, rnd.choice([0, 1, 2, 3]))
+        if k < 0.3:
+            return gv.subclassify(t, rnd) or t
+        return t
     if name == 'timestamp':
         return gv.rdatetime(rnd)
     if wtype == 'shortstr':
